@@ -11,6 +11,8 @@ import DateutilVerif.Proofs.RenderGenC
 import DateutilVerif.Proofs.RenderGenD
 import DateutilVerif.Proofs.RenderGenE
 import DateutilVerif.Proofs.RenderCompactFrac
+import DateutilVerif.Proofs.RenderHmsFrac
+import DateutilVerif.Proofs.RenderCtimeOff
 namespace C02
 open PM Py PT
 
@@ -144,36 +146,60 @@ example : parse asciiCls (Info.default false false 2024 2000) {} [] .absent ⟨2
   Fields a rendering does not name come from the default (C15), so `expect` says exactly which fields are read
   from the text; with the oracle's midnight default this is `trunc`. -/
 
-/-! #### what the zone conclusion `offDescr tznames off` of every offset theorem says — and what it does NOT say
+/-! #### what the zone conclusion `offDescr tznames off` of every offset theorem says
 
   `offDescr` is `.naive` (nothing rendered), `.fixed none n` (`tzoffset(None, n)`, a non-zero offset `n` seconds), and for
-  a ZERO offset (`Z`, ` UTC`, `+00`, `+0000`, `+00:00`, `-00:00`): `tz.UTC` **unless** `"UTC" ∈ time.tzname`, in which
-  case it is `.localZone "UTC"` — `tz.tzlocal()`.  `.localZone` is a bare descriptor: it carries NO offset.  So when
-  the process zone is CALLED `UTC`, the theorems prove only "the result is in the process zone", NOT "aware with the
-  rendered offset (zero)".  A POSIX TZ string may call any zone `UTC` (`TZ=UTC+3`: `time.tzname = ('UTC','UTC')`,
-  offset −03:00), and then the implementation really returns −03:00 for `…Z` / `…+00:00` / `… UTC`: known finding
-  `D-C02-local-zone-named-utc` (a defect of /repo; witness in known_findings.d/C02.json and in the manifest).
-  `offDescr_carries_offset` is the clause that IS proved: the zone is `tz.UTC` / the fixed offset rendered whenever
-  the offset is non-zero or no process zone name is `UTC`; `offDescr_local_iff` says the `.localZone` row is exactly
-  the excluded class. -/
+  a ZERO offset (`Z`, ` UTC`, `+00`, `+0000`, `+00:00`, `-00:00`): `tz.UTC`, or — when `"UTC" ∈ time.tzname` — the
+  process-zone row `.localZone "UTC" (some 0)`, which `localFinal` resolves with what `tzlocal()` reports for the wall time:
+  `tzlocal()` when that zone IS at offset zero there, `tz.UTC` otherwise (a POSIX TZ string may call any zone `UTC`:
+  `TZ=UTC+3`).  Since the repair of D-C02-local-zone-named-utc (= D-C15-local-zone-named-utc) the result is therefore
+  at the rendered offset in EVERY case: `offDescr_carries_offset`, with no proviso about `time.tzname`. -/
 
-/-- the proved part of "aware with the rendered offset": a non-zero offset gives `tzoffset(None, n)`; a zero offset
-    gives `tz.UTC` **provided no process zone name is `UTC`** -/
+/-- the UTC offset (seconds) of a result's zone at its wall time; for the process-zone row: after `localFinal`, for ANY names
+    `n0 n1` and offsets `o0 o1` that `tzlocal()` may report at fold 0 / fold 1 -/
+def descrOffset (info : Info) (n0 n1 : Option Token) (o0 o1 : Int) : TzDescr → Option Int
+  | .utc => some 0
+  | .fixed _ n => some n
+  | .localZone name off => some ((localFinal info n0 n1 o0 o1 name off).offset o0 o1)
+  | _ => none
+
+/-- **aware with the rendered offset**: a non-zero offset gives `tzoffset(None, n)`; a zero offset gives a zone that is at
+    offset zero — `tz.UTC`, or the process zone when it is called `UTC` AND is at offset zero for that wall time —
+    whatever `time.tzname` is and whatever `tzlocal()` reports (no hypothesis on `tznames`, `n0 n1 o0 o1`, `info`) -/
 theorem offDescr_carries_offset (tznames : List Token) (off : Off) (n : Int) (hn : off.seconds = some n)
-    (h : n = 0 → tznames.contains ['U', 'T', 'C'] = false) :
-    offDescr tznames off = if n = 0 then .utc else .fixed none n := by
+    (info : Info) (n0 n1 : Option Token) (o0 o1 : Int) :
+    descrOffset info n0 n1 o0 o1 (offDescr tznames off) = some n := by
   unfold offDescr utcOrLocal
   rw [hn]
   by_cases h0 : n = 0
-  · have hc := h h0
-    simp only [List.contains_eq_mem, decide_eq_false_iff_not] at hc
-    simp [h0, hc]
-  · simp [h0]
+  · subst h0
+    by_cases hc : ['U', 'T', 'C'] ∈ tznames
+    · simp only [List.contains_eq_mem, hc, decide_true, if_true, descrOffset]
+      congr 1
+      unfold localFinal
+      simp only [true_and]
+      generalize assignFold n0 n1 (some ['U', 'T', 'C']) = f
+      by_cases hc' : (if f = 1 then n1 else n0) ≠ some ['U', 'T', 'C'] ∧ info.UTCZONE.contains ['U', 'T', 'C'] = true
+      · rw [if_pos hc']; rfl
+      · rw [if_neg hc']
+        by_cases h : (if f = 1 then o1 else o0) ≠ 0
+        · rw [if_pos h]; rfl
+        · rw [if_neg h]; simp only [LocalFinal.offset]; exact Decidable.of_not_not h
+    · simp [hc, descrOffset]
+  · simp [h0, descrOffset]
 
-/-- the `.localZone` row (no offset information) is exactly: zero offset rendered ∧ the process zone is called `UTC` -/
-theorem offDescr_local_iff (tznames : List Token) (off : Off) (name : Token) :
-    offDescr tznames off = .localZone name ↔
-      off.seconds = some 0 ∧ tznames.contains ['U', 'T', 'C'] = true ∧ name = ['U', 'T', 'C'] := by
+/-- … and which object it is: `tz.UTC` unless the process zone is called `UTC`; then `tzlocal()` exactly when it is at
+    offset zero at the wall time (at the fold `_assign_tzname` picks) and still calls itself `UTC` there, else `tz.UTC` -/
+theorem offDescr_zero_object (tznames : List Token) (off : Off) (hn : off.seconds = some 0) :
+    offDescr tznames off = .utc ∨ offDescr tznames off = .localZone ['U', 'T', 'C'] (some 0) := by
+  unfold offDescr utcOrLocal
+  rw [hn]
+  by_cases hc : ['U', 'T', 'C'] ∈ tznames <;> simp [hc]
+
+/-- the process-zone row is exactly: zero offset rendered ∧ the process zone is called `UTC` (and it carries offset `some 0`) -/
+theorem offDescr_local_iff (tznames : List Token) (off : Off) (name : Token) (o : Option Int) :
+    offDescr tznames off = .localZone name o ↔
+      off.seconds = some 0 ∧ tznames.contains ['U', 'T', 'C'] = true ∧ name = ['U', 'T', 'C'] ∧ o = some 0 := by
   unfold offDescr utcOrLocal
   cases hs : off.seconds with
   | none => simp
@@ -184,11 +210,16 @@ theorem offDescr_local_iff (tznames : List Token) (off : Off) (name : Token) :
       · simp [h0, hc]
     · simp [h0]
 
+/-- a zone merely CALLED `UTC` (three hours west: `TZ=UTC+3`) and one that is UTC: the first gives `tz.UTC`, the second `tzlocal()` -/
+example : localFinal (Info.default false false 2024 2000) (some "UTC".toList) (some "UTC".toList) (-10800) (-10800) "UTC".toList (some 0) = .utc
+    ∧ localFinal (Info.default false false 2024 2000) (some "UTC".toList) (some "UTC".toList) 0 0 "UTC".toList (some 0) = .localFold 0 := by
+  decide
+
 /-- **families 1 and 2**: `YYYY-MM-DD[T| ]HH:MM[:SS[(.|,)f{1..6}]]` followed by nothing, `Z`, ` Z`, ` UTC`, `±HH`,
     `±HHMM`, `±HH:MM` (optionally after a space), offsets −23:59..+23:59: that datetime, cut to the digits shown,
     naive / the fixed offset / for a zero offset `tz.UTC` — or, when the process zone is itself called `UTC`, the
-    process zone `tzlocal()`, whose offset is whatever that zone's is (NOT necessarily zero: D-C02-local-zone-named-utc;
-    see `offDescr_carries_offset` for the clause that is proved). -/
+    process-zone row carrying offset zero (`tzlocal()` if that zone is at offset zero there, else `tz.UTC`): always a zone at
+    the rendered offset (`offDescr_carries_offset`). -/
 theorem parse_render_iso_offsets (cls : Char → CClass) [AsciiOK cls] (yf : Bool) (year century : Int) (o : Opts)
     (tznames : List Token) (tzi : TzInfos) (ho : PlainOpts o tzi) (dflt : DT) (hdv : dflt.Valid) (t : DT) (ht : t.Valid)
     (sep : Char) (hsep : sep = 'T' ∨ sep = ' ') (f : TimeFmt) (hf : timeFmtDom f) (off : Off) (hoff : off.Dom) :
@@ -215,6 +246,28 @@ theorem parse_render_compact_fraction (cls : Char → CClass) [AsciiOK cls] (yf 
             tokens := none } :=
   parse_cfrac cls yf year century o tznames tzi ho dflt hdv t ht hd comma k hk1 hk6 off hoff
 
+/-- **family 6b**: the unit notation with a fraction on the seconds, `YYYY-MM-DD HHhMMmSS(.|,)f…s`, with 1, 2, 4 or 6 fraction
+    digits, followed by nothing or by any offset spelling after a space (the `s` must be separated from an offset): one lexer
+    token `SS.f…` (a comma after the two second digits is a decimal mark), which — its length being none of 6, 8, 12, 14 — reaches
+    `_find_hms_idx`, the `s` behind it `_assign_hms`, and that `_parsems`: the datetime cut to the digits shown.
+    (3 and 5 digits: the token is 6 / 8 characters long and is read as HHMMSS / YYYYMMDD — known finding
+    D-C02-hms-fraction-token-length; the full-strength statement `1 ≤ k ≤ 6` is FALSE on /repo and on the model, see the example.) -/
+theorem parse_render_hms_fraction (cls : Char → CClass) [AsciiOK cls] (yf : Bool) (year century : Int) (o : Opts)
+    (tznames : List Token) (tzi : TzInfos) (ho : PlainOpts o tzi) (dflt : DT) (hdv : dflt.Valid) (t : DT) (ht : t.Valid)
+    (comma : Bool) (k : Nat) (hk : k = 1 ∨ k = 2 ∨ k = 4 ∨ k = 6) (off : Off) (hoff : off.Dom) (hsp : off.Spaced) :
+    parse cls (Info.default false yf year century) o tznames tzi dflt (renderHmsFrac comma k t off) =
+      .ok { dt := (TimeFmt.frac comma k).expect t dflt, tz := if o.ignoretz then .naive else offDescr tznames off,
+            tokens := none } :=
+  parse_hmsFrac cls yf year century o tznames tzi ho dflt hdv t ht comma k hk off hoff hsp
+
+/-- non-vacuity: `2003-09-25 10h49m41,5027s +03:30` is 10:49:41.502700 at +03:30; and with THREE fraction digits the model (like
+    /repo) rejects the text — the excluded lengths are exactly the known finding -/
+example : parse asciiCls (Info.default false false 2024 2000) {} [] .absent ⟨2001, 1, 1, 0, 0, 0, 0⟩
+    (renderHmsFrac true 4 ⟨2003, 9, 25, 10, 49, 41, 502789⟩ (.hhcmm true false 3 30)) =
+      .ok ⟨⟨2003, 9, 25, 10, 49, 41, 502700⟩, .fixed none 12600, none⟩ := by decide +kernel
+example : parse asciiCls (Info.default false false 2024 2000) {} [] .absent ⟨2001, 1, 1, 0, 0, 0, 0⟩
+    (renderHmsFrac false 3 ⟨2003, 9, 25, 10, 49, 41, 502789⟩ .naive) = .error .ParserError := by decide +kernel
+
 /-- **family 4**: ctime `Www Mmm dd HH:MM:SS YYYY`, RFC 2822 `Www, DD Mmm YYYY HH:MM:SS<offset>`, `Month D, YYYY`,
     `D Mon YYYY` (year ≥ 100: D-C02 is exactly the excluded class) and `DD-Mon-YYYY` (every year); the weekday word
     may be any of the seven (the parser ignores it when a day is given) -/
@@ -228,6 +281,20 @@ theorem parse_render_monthname (cls : Char → CClass) [AsciiOK cls] (yf : Bool)
               | _ => .naive,
             tokens := none } :=
   parse_mon cls yf year century o tznames tzi ho dflt hdv t ht f hf off hoff
+
+/-- **family 4b**: ctime followed by an offset, `Www Mmm dd HH:MM:SS YYYY <offset>` (year ≥ 100; nothing, or any offset spelling after a
+    space): the year's number swallows the space (a jump token) and the offset arm reads the rest — that datetime, aware with the
+    rendered offset -/
+theorem parse_render_ctime_offsets (cls : Char → CClass) [AsciiOK cls] (yf : Bool) (year century : Int) (o : Opts)
+    (tznames : List Token) (tzi : TzInfos) (ho : PlainOpts o tzi) (dflt : DT) (hdv : dflt.Valid) (t : DT) (ht : t.Valid)
+    (w : Nat) (hw : w < 7) (hy : 100 ≤ t.y) (off : Off) (hoff : off.Dom) (hsp : off.Spaced) :
+    parse cls (Info.default false yf year century) o tznames tzi dflt (renderCtimeOff w t off) =
+      .ok { dt := { t with us := 0 }, tz := if o.ignoretz then .naive else offDescr tznames off, tokens := none } :=
+  parse_ctimeOff cls yf year century o tznames tzi ho dflt hdv t ht w hw hy off hoff hsp
+
+example : parse asciiCls (Info.default false false 2024 2000) {} [] .absent ⟨2001, 1, 1, 0, 0, 0, 0⟩
+    (renderCtimeOff 3 ⟨2003, 9, 5, 10, 49, 41, 7⟩ (.hhmm true true 3 30)) =
+      .ok ⟨⟨2003, 9, 5, 10, 49, 41, 0⟩, .fixed none (-12600), none⟩ := by decide +kernel
 
 /-- **family 5**: `YYYY-MM-DD H:MM AM|PM`, every hour of the day (12 AM = 0, 12 PM = 12) through the
     source-translated `_adjust_ampm` -/
@@ -309,10 +376,10 @@ example : parse asciiCls (Info.default false false 2024 2000) {} [] .absent ⟨2
 example : parse asciiCls (Info.default false false 2024 2000) {} [] .absent ⟨2001, 1, 1, 0, 0, 0, 0⟩
     "Wed May 28 23:52:59 0031".toList = .ok ⟨⟨2031, 5, 28, 23, 52, 59, 0⟩, .naive, none⟩ := by decide +kernel
 
-/-- D-C02-local-zone-named-utc, shown by the model: with `time.tzname = ("UTC", "UTC")` (e.g. `TZ=UTC+3`) a rendered `+00:00`
-    comes back in the PROCESS zone (`.localZone`), not as `tz.UTC` — and that zone is 3 hours away from UTC -/
+/-- D-C02-local-zone-named-utc (repaired): with `time.tzname = ("UTC", "UTC")` (e.g. `TZ=UTC+3`) a rendered `+00:00` reaches the
+    process-zone row WITH its offset, and `localFinal` returns `tz.UTC` because that zone is 3 hours away from UTC -/
 example : parse asciiCls (Info.default false false 2024 2000) {} ["UTC".toList, "UTC".toList] .absent ⟨2001, 1, 1, 0, 0, 0, 0⟩
-    "2003-09-25T10:49:41+00:00".toList = .ok ⟨⟨2003, 9, 25, 10, 49, 41, 0⟩, .localZone "UTC".toList, none⟩ := by decide +kernel
+    "2003-09-25T10:49:41+00:00".toList = .ok ⟨⟨2003, 9, 25, 10, 49, 41, 0⟩, .localZone "UTC".toList (some 0), none⟩ := by decide +kernel
 
 -- BEGIN GENERATED INDEX (tools_local/gen_templates.py)
 /-- the theorem a template id stands for (`False` for an id without one) -/
@@ -587,14 +654,46 @@ def TemplateThm (id : String) : Prop :=
     (∀ (cls : Char → CClass) [AsciiOK cls] (yf : Bool) (year century : Int) (o : Opts) (tznames : List Token) (tzi : TzInfos) (ho : PlainOpts o tzi) (t dflt : DT) (ht : t.Valid) (hdv : dflt.Valid) (off : Off) (hoff : off.Dom),
       parse cls (Info.default false yf year century) o tznames tzi dflt (renderCFrac .compactT false 6 t off) =
         .ok { dt := TimeFmt.expect (.frac false 6) t dflt, tz := if o.ignoretz then .naive else offDescr tznames off, tokens := none })
+  else if id = "hms_letters_dot_f1" then
+    (∀ (cls : Char → CClass) [AsciiOK cls] (yf : Bool) (year century : Int) (o : Opts) (tznames : List Token) (tzi : TzInfos) (ho : PlainOpts o tzi) (t dflt : DT) (ht : t.Valid) (hdv : dflt.Valid) (off : Off) (hoff : off.Dom) (hsp : off.Spaced),
+      parse cls (Info.default false yf year century) o tznames tzi dflt (renderHmsFrac false 1 t off) =
+        .ok { dt := TimeFmt.expect (.frac false 1) t dflt, tz := if o.ignoretz then .naive else offDescr tznames off, tokens := none })
+  else if id = "hms_letters_dot_f2" then
+    (∀ (cls : Char → CClass) [AsciiOK cls] (yf : Bool) (year century : Int) (o : Opts) (tznames : List Token) (tzi : TzInfos) (ho : PlainOpts o tzi) (t dflt : DT) (ht : t.Valid) (hdv : dflt.Valid) (off : Off) (hoff : off.Dom) (hsp : off.Spaced),
+      parse cls (Info.default false yf year century) o tznames tzi dflt (renderHmsFrac false 2 t off) =
+        .ok { dt := TimeFmt.expect (.frac false 2) t dflt, tz := if o.ignoretz then .naive else offDescr tznames off, tokens := none })
+  else if id = "hms_letters_dot_f4" then
+    (∀ (cls : Char → CClass) [AsciiOK cls] (yf : Bool) (year century : Int) (o : Opts) (tznames : List Token) (tzi : TzInfos) (ho : PlainOpts o tzi) (t dflt : DT) (ht : t.Valid) (hdv : dflt.Valid) (off : Off) (hoff : off.Dom) (hsp : off.Spaced),
+      parse cls (Info.default false yf year century) o tznames tzi dflt (renderHmsFrac false 4 t off) =
+        .ok { dt := TimeFmt.expect (.frac false 4) t dflt, tz := if o.ignoretz then .naive else offDescr tznames off, tokens := none })
+  else if id = "hms_letters_dot_f6" then
+    (∀ (cls : Char → CClass) [AsciiOK cls] (yf : Bool) (year century : Int) (o : Opts) (tznames : List Token) (tzi : TzInfos) (ho : PlainOpts o tzi) (t dflt : DT) (ht : t.Valid) (hdv : dflt.Valid) (off : Off) (hoff : off.Dom) (hsp : off.Spaced),
+      parse cls (Info.default false yf year century) o tznames tzi dflt (renderHmsFrac false 6 t off) =
+        .ok { dt := TimeFmt.expect (.frac false 6) t dflt, tz := if o.ignoretz then .naive else offDescr tznames off, tokens := none })
+  else if id = "hms_letters_comma_f1" then
+    (∀ (cls : Char → CClass) [AsciiOK cls] (yf : Bool) (year century : Int) (o : Opts) (tznames : List Token) (tzi : TzInfos) (ho : PlainOpts o tzi) (t dflt : DT) (ht : t.Valid) (hdv : dflt.Valid) (off : Off) (hoff : off.Dom) (hsp : off.Spaced),
+      parse cls (Info.default false yf year century) o tznames tzi dflt (renderHmsFrac true 1 t off) =
+        .ok { dt := TimeFmt.expect (.frac true 1) t dflt, tz := if o.ignoretz then .naive else offDescr tznames off, tokens := none })
+  else if id = "hms_letters_comma_f2" then
+    (∀ (cls : Char → CClass) [AsciiOK cls] (yf : Bool) (year century : Int) (o : Opts) (tznames : List Token) (tzi : TzInfos) (ho : PlainOpts o tzi) (t dflt : DT) (ht : t.Valid) (hdv : dflt.Valid) (off : Off) (hoff : off.Dom) (hsp : off.Spaced),
+      parse cls (Info.default false yf year century) o tznames tzi dflt (renderHmsFrac true 2 t off) =
+        .ok { dt := TimeFmt.expect (.frac true 2) t dflt, tz := if o.ignoretz then .naive else offDescr tznames off, tokens := none })
+  else if id = "hms_letters_comma_f4" then
+    (∀ (cls : Char → CClass) [AsciiOK cls] (yf : Bool) (year century : Int) (o : Opts) (tznames : List Token) (tzi : TzInfos) (ho : PlainOpts o tzi) (t dflt : DT) (ht : t.Valid) (hdv : dflt.Valid) (off : Off) (hoff : off.Dom) (hsp : off.Spaced),
+      parse cls (Info.default false yf year century) o tznames tzi dflt (renderHmsFrac true 4 t off) =
+        .ok { dt := TimeFmt.expect (.frac true 4) t dflt, tz := if o.ignoretz then .naive else offDescr tznames off, tokens := none })
+  else if id = "hms_letters_comma_f6" then
+    (∀ (cls : Char → CClass) [AsciiOK cls] (yf : Bool) (year century : Int) (o : Opts) (tznames : List Token) (tzi : TzInfos) (ho : PlainOpts o tzi) (t dflt : DT) (ht : t.Valid) (hdv : dflt.Valid) (off : Off) (hoff : off.Dom) (hsp : off.Spaced),
+      parse cls (Info.default false yf year century) o tznames tzi dflt (renderHmsFrac true 6 t off) =
+        .ok { dt := TimeFmt.expect (.frac true 6) t dflt, tz := if o.ignoretz then .naive else offDescr tznames off, tokens := none })
+  else if id = "ctime" then
+    (∀ (cls : Char → CClass) [AsciiOK cls] (yf : Bool) (year century : Int) (o : Opts) (tznames : List Token) (tzi : TzInfos) (ho : PlainOpts o tzi) (t dflt : DT) (ht : t.Valid) (hdv : dflt.Valid) (hy : 100 ≤ t.y) (off : Off) (hoff : off.Dom) (hsp : off.Spaced),
+      parse cls (Info.default false yf year century) o tznames tzi dflt (renderCtimeOff t.weekday.toNat t off) =
+        .ok { dt := { t with us := 0 }, tz := if o.ignoretz then .naive else offDescr tznames off, tokens := none })
   else if id = "rfc2822" then
     (∀ (cls : Char → CClass) [AsciiOK cls] (yf : Bool) (year century : Int) (o : Opts) (tznames : List Token) (tzi : TzInfos) (ho : PlainOpts o tzi) (t dflt : DT) (ht : t.Valid) (hdv : dflt.Valid) (hy : 100 ≤ t.y) (off : Off) (hoff : off.Dom),
       parse cls (Info.default false yf year century) o tznames tzi dflt (renderMon (.rfc2822 t.weekday.toNat) t off) =
         .ok { dt := MonFmt.expect (.rfc2822 t.weekday.toNat) t dflt, tz := (if o.ignoretz then .naive else offDescr tznames off), tokens := none })
-  else if id = "ctime" then
-    (∀ (cls : Char → CClass) [AsciiOK cls] (yf : Bool) (year century : Int) (o : Opts) (tznames : List Token) (tzi : TzInfos) (ho : PlainOpts o tzi) (t dflt : DT) (ht : t.Valid) (hdv : dflt.Valid) (hy : 100 ≤ t.y),
-      parse cls (Info.default false yf year century) o tznames tzi dflt (renderMon (.ctime t.weekday.toNat) t .naive) =
-        .ok { dt := MonFmt.expect (.ctime t.weekday.toNat) t dflt, tz := .naive, tokens := none })
   else if id = "d_Mon_Y" then
     (∀ (cls : Char → CClass) [AsciiOK cls] (yf : Bool) (year century : Int) (o : Opts) (tznames : List Token) (tzi : TzInfos) (ho : PlainOpts o tzi) (t dflt : DT) (ht : t.Valid) (hdv : dflt.Valid) (hy : 100 ≤ t.y),
       parse cls (Info.default false yf year century) o tznames tzi dflt (renderMon .dMonY t .naive) =
@@ -637,12 +736,13 @@ def TemplateThm (id : String) : Prop :=
         .ok { dt := { t with hh := dflt.hh, mm := dflt.mm, ss := dflt.ss, us := dflt.us }, tz := .naive, tokens := none })
   else False
 
+set_option maxHeartbeats 4000000 in
 /-- **every id in `PT.provedTemplates` (the list the evidence prints through the `parser.proved` op) has its theorem**:
     an id listed without a proof makes this fail to build, so the evidence cannot claim more than is proved. -/
 theorem proved_templates_have_theorems : ∀ p ∈ provedTemplates, TemplateThm p.1 := by
   intro p hp
   simp only [provedTemplates, List.mem_cons, List.mem_nil_iff, or_false] at hp
-  rcases hp with rfl | rfl | rfl | rfl | rfl | rfl | rfl | rfl | rfl | rfl | rfl | rfl | rfl | rfl | rfl | rfl | rfl | rfl | rfl | rfl | rfl | rfl | rfl | rfl | rfl | rfl | rfl | rfl | rfl | rfl | rfl | rfl | rfl | rfl | rfl | rfl | rfl | rfl | rfl | rfl | rfl | rfl | rfl | rfl | rfl | rfl | rfl | rfl | rfl | rfl | rfl | rfl | rfl | rfl | rfl | rfl | rfl | rfl | rfl | rfl | rfl | rfl | rfl | rfl | rfl | rfl | rfl | rfl | rfl | rfl | rfl | rfl | rfl | rfl | rfl | rfl | rfl | rfl | rfl | rfl | rfl | rfl
+  rcases hp with rfl | rfl | rfl | rfl | rfl | rfl | rfl | rfl | rfl | rfl | rfl | rfl | rfl | rfl | rfl | rfl | rfl | rfl | rfl | rfl | rfl | rfl | rfl | rfl | rfl | rfl | rfl | rfl | rfl | rfl | rfl | rfl | rfl | rfl | rfl | rfl | rfl | rfl | rfl | rfl | rfl | rfl | rfl | rfl | rfl | rfl | rfl | rfl | rfl | rfl | rfl | rfl | rfl | rfl | rfl | rfl | rfl | rfl | rfl | rfl | rfl | rfl | rfl | rfl | rfl | rfl | rfl | rfl | rfl | rfl | rfl | rfl | rfl | rfl | rfl | rfl | rfl | rfl | rfl | rfl | rfl | rfl | rfl | rfl | rfl | rfl | rfl | rfl | rfl | rfl
   · show TemplateThm "us_slash"
     simp only [TemplateThm]
     exact fun cls _ yf year century o tznames tzi ho hdf hyf t dflt ht hdv off hoff => tpl_us_slash cls yf year century o tznames tzi ho hdf hyf t dflt ht hdv off hoff
@@ -913,14 +1013,46 @@ theorem proved_templates_have_theorems : ∀ p ∈ provedTemplates, TemplateThm 
     simp only [TemplateThm]
     exact fun cls _ yf year century o tznames tzi ho t dflt ht hdv off hoff =>
       parse_cfrac cls yf year century o tznames tzi ho dflt hdv t ht .compactT false 6 (by decide) (by decide) off hoff
+  · show TemplateThm "hms_letters_dot_f1"
+    simp only [TemplateThm]
+    exact fun cls _ yf year century o tznames tzi ho t dflt ht hdv off hoff hsp =>
+      parse_hmsFrac cls yf year century o tznames tzi ho dflt hdv t ht false 1 (by decide) off hoff hsp
+  · show TemplateThm "hms_letters_dot_f2"
+    simp only [TemplateThm]
+    exact fun cls _ yf year century o tznames tzi ho t dflt ht hdv off hoff hsp =>
+      parse_hmsFrac cls yf year century o tznames tzi ho dflt hdv t ht false 2 (by decide) off hoff hsp
+  · show TemplateThm "hms_letters_dot_f4"
+    simp only [TemplateThm]
+    exact fun cls _ yf year century o tznames tzi ho t dflt ht hdv off hoff hsp =>
+      parse_hmsFrac cls yf year century o tznames tzi ho dflt hdv t ht false 4 (by decide) off hoff hsp
+  · show TemplateThm "hms_letters_dot_f6"
+    simp only [TemplateThm]
+    exact fun cls _ yf year century o tznames tzi ho t dflt ht hdv off hoff hsp =>
+      parse_hmsFrac cls yf year century o tznames tzi ho dflt hdv t ht false 6 (by decide) off hoff hsp
+  · show TemplateThm "hms_letters_comma_f1"
+    simp only [TemplateThm]
+    exact fun cls _ yf year century o tznames tzi ho t dflt ht hdv off hoff hsp =>
+      parse_hmsFrac cls yf year century o tznames tzi ho dflt hdv t ht true 1 (by decide) off hoff hsp
+  · show TemplateThm "hms_letters_comma_f2"
+    simp only [TemplateThm]
+    exact fun cls _ yf year century o tznames tzi ho t dflt ht hdv off hoff hsp =>
+      parse_hmsFrac cls yf year century o tznames tzi ho dflt hdv t ht true 2 (by decide) off hoff hsp
+  · show TemplateThm "hms_letters_comma_f4"
+    simp only [TemplateThm]
+    exact fun cls _ yf year century o tznames tzi ho t dflt ht hdv off hoff hsp =>
+      parse_hmsFrac cls yf year century o tznames tzi ho dflt hdv t ht true 4 (by decide) off hoff hsp
+  · show TemplateThm "hms_letters_comma_f6"
+    simp only [TemplateThm]
+    exact fun cls _ yf year century o tznames tzi ho t dflt ht hdv off hoff hsp =>
+      parse_hmsFrac cls yf year century o tznames tzi ho dflt hdv t ht true 6 (by decide) off hoff hsp
+  · show TemplateThm "ctime"
+    simp only [TemplateThm]
+    exact fun cls _ yf year century o tznames tzi ho t dflt ht hdv hy off hoff hsp =>
+      parse_ctimeOff cls yf year century o tznames tzi ho dflt hdv t ht t.weekday.toNat (weekday_lt7 t) hy off hoff hsp
   · show TemplateThm "rfc2822"
     simp only [TemplateThm]
     exact fun cls _ yf year century o tznames tzi ho t dflt ht hdv hy off hoff =>
       parse_mon cls yf year century o tznames tzi ho dflt hdv t ht (.rfc2822 t.weekday.toNat) (by first | exact hy | exact ⟨weekday_lt7 t, hy⟩) off hoff
-  · show TemplateThm "ctime"
-    simp only [TemplateThm]
-    exact fun cls _ yf year century o tznames tzi ho t dflt ht hdv hy =>
-      parse_mon cls yf year century o tznames tzi ho dflt hdv t ht (.ctime t.weekday.toNat) (by first | exact hy | exact ⟨weekday_lt7 t, hy⟩) .naive trivial
   · show TemplateThm "d_Mon_Y"
     simp only [TemplateThm]
     exact fun cls _ yf year century o tznames tzi ho t dflt ht hdv hy =>
